@@ -478,8 +478,13 @@ def run(ctx, host=None):
     for mname, n in sets_true:
         mf = zcls.methods[mname]
         pre = [c for c in walk_local(mf.node) if isinstance(c, ast.Call) and isinstance(c.func, ast.Attribute) and c.lineno < n.lineno]
-        opened = any(c.func.attr == 'open_stream' for c in pre)
-        seeked = any(c.func.attr == 'seek' and '_lazy_uncompressed_stream' in names_in(c.func.value) and c.args and '_pos' in names_in(c.args[0]) for c in pre)
+        # both calls must sit in the very block that sets the flag (same guard): a position carried over only under a further condition leaves the
+        # uncompressed copy at offset 0 on the other paths
+        blk = getattr(n, '_parent', None)
+        sibs = [x for f_ in ('body', 'orelse', 'finalbody') for x in (getattr(blk, f_, None) or [])] if blk is not None else []
+        pre_here = [c for st_ in sibs if getattr(st_, 'lineno', 0) < n.lineno and isinstance(st_, ast.Expr) and isinstance(st_.value, ast.Call) and isinstance(st_.value.func, ast.Attribute) for c in [st_.value]]
+        opened = any(c.func.attr == 'open_stream' for c in pre_here)
+        seeked = any(c.func.attr == 'seek' and '_lazy_uncompressed_stream' in names_in(c.func.value) and c.args and '_pos' in names_in(c.args[0]) for c in pre_here)
         if opened and seeked:
             chk.ok(R5, f'{ZL}.{mname}', norm(n), detail='after open_stream() and seek(self._pos, 0)')
         else:
@@ -518,6 +523,20 @@ def run(ctx, host=None):
         what = rebinds[0] if rebinds else (deleg[0] if deleg else zseek.node)
         chk.bad(R5, zseek.qualname, norm(what)[:100], 'seek() rewrites its target/whence (or the proxy branch of read/tell/_seek_internal does not return) before the proxy test: once the stream reads from the '
                 'uncompressed copy the decompresser\'s own position is stale, so a relative seek computed from it lands at a wrong offset', where=f'{zseek.module.relpath}:{getattr(what, "lineno", zseek.lineno)}')
+
+    # every decompresser the read funnel hands out gets the lazy loose copy (siblings agree): without it a seek from the end is impossible for that
+    # object, although the same object read through the other lookup pass supports it
+    R9 = chk.rule('C07.R9', 'every stream decompresser constructed by the read funnel is given the lazy loose stream of its object (both lookup passes agree)', 1)
+    from .funnel import FUNNEL
+    fun = prog.fn(FUNNEL)
+    ctor = [c for c in walk_local(fun.node) if isinstance(c, ast.Call) and isinstance(c.func, ast.Call) and norm(c.func.func).endswith('_get_stream_decompresser')]
+    chk.require(len(ctor) >= 2, f'funnel: expected 2 decompresser construction sites, found {len(ctor)}')
+    nolazy = [c for c in ctor if not any(k.arg == 'lazy_uncompressed_stream' for k in c.keywords) and len(c.args) < 2]
+    for c in nolazy:
+        chk.bad(R9, FUNNEL, norm(c)[:100], 'this compressed object is handed out without its lazy loose copy: seek(offset, 2) raises NotImplementedError for it although the sibling lookup pass supports it',
+                where=f'{fun.module.relpath}:{c.lineno}')
+    if not nolazy:
+        chk.ok(R9, FUNNEL, f'{len(ctor)} construction site(s)', detail='all pass lazy_uncompressed_stream')
 
     # ---------------------------------------------------------------- R8: decompresser position bookkeeping and seek loop shape
     R8 = chk.rule('C07.R8', 'decompresser: position advanced by exactly the bytes handed out; forward seek reads at most up to the target; a backward target rewinds first', 3)
